@@ -192,6 +192,7 @@ class UndirectedWeightedGraph : private LabeledUndirectedGraph<EdgeWeight> {
                         totalWeight -= getEdgeLabel(i, *j, false);
                         --edgeNumber;
                     }
+                    edgeLabels.erase(orderedEdge(i, *j));
                     adjacencyList[i].erase(j++);
                 } else {
                     ++j;
